@@ -26,14 +26,15 @@ pattern, on every non-empty path; backfill_or_panic removes the entry, asserts i
 begin + src.len() <= len before the raw copy into get_logical_slice(slice_index) + begin, and validates the length before removing
 (a rejected backfill leaves the placeholder pending); (R4.6) placeholders travel with the bytes they block:
 take() is a whole-value swap, clear() resets both together, no OwningIovec literal or mem::take separates
-slices from backrefs.
+slices from backrefs; (R4.7) the logical slice index recorded for a placeholder stays valid under front
+consumption because consumed_slices moves with every advance (R3.2 re-evaluated).
 NOT decided: that slice indices stay right under merges and front consumption for all histories (index
 arithmetic, value-level).
 """
 
 ASSUMPTIONS = ['SortedDeque / SlidingDeque clauses (C15, C16)', 'typestate witnesses W1-W3 (compile-fail, thorough tier)']
 
-FLOORS = {'R4.1': 14, 'R4.2': 2, 'R4.3': 5, 'R4.4': 6, 'R4.5': 9, 'R4.6': 5}
+FLOORS = {'R4.1': 14, 'R4.2': 2, 'R4.3': 5, 'R4.4': 6, 'R4.5': 9, 'R4.6': 5, 'R4.7': 9}
 
 READ_TABLE = {
     OI + '::stable_prefix': 'the funnel itself',
@@ -315,4 +316,17 @@ def r4_6(cx):
     cx.check(n >= 1, 'literals-examined', None, 'owning_iovec/src/implementation.rs', '%d OwningIovec literal(s) examined' % n)
 
 
-RULES = [('R4.1', r4_1), ('R4.2', r4_2), ('R4.3', r4_3), ('R4.4', r4_4), ('R4.5', r4_5), ('R4.6', r4_6)]
+def r4_7(cx):
+    """logical slice indices stay valid under front consumption: the deque's counters move with it (R3.2)"""
+    from . import c03
+    sub = cx.__class__(cx.prog, cx.profile, cx.prop)
+    sub.rule = 'R3.2'
+    c03.r3_2(sub)
+    for rec in sub.records:
+        rec = dict(rec)
+        rec['instance'] = 'R3.2:' + rec['instance']
+        rec['rule'] = cx.rule
+        cx.records.append(rec)
+
+
+RULES = [('R4.1', r4_1), ('R4.2', r4_2), ('R4.3', r4_3), ('R4.4', r4_4), ('R4.5', r4_5), ('R4.6', r4_6), ('R4.7', r4_7)]
